@@ -30,6 +30,7 @@ type c06Fault struct {
 	PK     int    `json:"pk,omitempty"`
 	BK     int    `json:"bk,omitempty"`
 	Sticky bool   `json:"sticky,omitempty"`
+	Nil    bool   `json:"typed_nil,omitempty"` // the writer's error is a typed-nil pointer
 }
 
 type c06Reader struct {
@@ -119,7 +120,7 @@ func c06Exec(cs *c06Case, cc *sut.Compiled) (*wk.Failure, c06Obs) {
 			case "panic":
 				sut.Injector.At, sut.Injector.Kind = cs.Fault.N, faults.PanicKind(cs.Fault.PK)
 			case "write":
-				w.FailCall, w.Sticky = cs.Fault.N, cs.Fault.Sticky
+				w.FailCall, w.Sticky, w.TypedNil = cs.Fault.N, cs.Fault.Sticky, cs.Fault.Nil
 			case "bundle":
 				stub = faults.NewBundle(faults.BundleKind(cs.Fault.BK), cc.Msgs)
 				stub.From = cs.Fault.N
@@ -364,6 +365,9 @@ func C06(c *wk.Ctx) {
 							cs.Fault = c06Fault{Kind: "write", N: k, Sticky: sticky}
 							exec(&cs, cc)
 						}
+						tn := base
+						tn.Fault = c06Fault{Kind: "write", N: k, Sticky: true, Nil: true}
+						exec(&tn, cc)
 					}
 					if len(cc.Msgs) > 0 && base.API != "render" {
 						for bk := int(faults.BundleUnknownPlaceholder); bk < int(faults.NumBundleKinds); bk++ {
